@@ -30,6 +30,13 @@ def run(rep, ctx):
     rep.run_rule("C19.R1b", "GetDefaultCategory prefers the unit's default_category, then the quantity-type-named category; ObtainQuantity uses it", r1b_mechanism, ctx)
     rep.run_rule("C19.R2", "constructor forms deliver value / unit / category to the same places", r2_ctor, ctx)
     rep.run_rule("C19.R3", "Scalar.__repr__ agrees with the (value, unit, category) constructor form; names are quote-free (exhaustive)", r3_repr, ctx)
+    from . import c07
+    from ..report import borrow
+    rep.rule("C19.R4", "the intern table answers a category-less request only with the object of the unit's default category (shared with C07.R5: keys are made of the request's own components)")
+    try:
+        borrow(rep, c07.r5_interning, ctx, "C07.R5", "C19.R4")
+    except AnalysisError as e:
+        rep.error("C19.R4", str(e))
     rep.not_decided.append("numeric equality of sampled values across forms (float(value) coercion is the same call in every form)")
 
 
